@@ -23,6 +23,10 @@ def world(fam, q, t):
 # theorem modules shared between properties: the rational-number reading of the Spec predicates
 EXTRA_MODULES = {p: ["Halo.Props.Rational"] for p in ("C01", "C03", "C04", "C05", "C06", "C10", "C12", "C15", "C20")}
 
+# … and the non-vacuity examples (a concrete world meeting the hypotheses of the world-level theorems)
+for _p in ("C02", "C03", "C13", "C16", "C20"):
+    EXTRA_MODULES.setdefault(_p, []).append("Halo.Props.Examples")
+
 WQ, WT = (25, 60), (300, 120)        # world families: (sequences, steps per sequence) quick / thorough
 
 # a divergence on a world step counts against the properties whose obligations that operation kind carries
